@@ -193,3 +193,48 @@ impl Direct {
         self.store.get(key)
     }
 }
+
+const BECH32_CHARSET: &[u8; 32] = b"qpzry9x8gf2tvdw0s3jn54khce6mua7l";
+
+fn bech32_polymod(values: &[u8]) -> u32 {
+    const GEN: [u32; 5] = [0x3b6a57b2, 0x26508e6d, 0x1ea119fa, 0x3d4233dd, 0x2a1462b3];
+    let mut chk: u32 = 1;
+    for v in values {
+        let b = chk >> 25;
+        chk = ((chk & 0x1ff_ffff) << 5) ^ (*v as u32);
+        for (i, g) in GEN.iter().enumerate() {
+            if (b >> i) & 1 == 1 {
+                chk ^= g;
+            }
+        }
+    }
+    chk
+}
+
+/// A second valid address that continues `short`: its text starts with the whole text of `short` (data and
+/// checksum), followed by six more data characters and its own checksum (a 40-byte address). In key order it
+/// follows `short` directly, and `short` is a strict prefix of it - the one shape of neighbouring keys that
+/// equal-length addresses never produce.
+pub fn extended_addr(api: &cosmwasm_std::testing::MockApi, short: &cosmwasm_std::Addr) -> cosmwasm_std::Addr {
+    use cosmwasm_std::Api;
+    let text = short.as_str();
+    let (hrp, data) = text.split_once('1').expect("bech32 separator");
+    let mut vals: Vec<u8> = data.bytes().map(|c| BECH32_CHARSET.iter().position(|x| *x == c).expect("bech32 character") as u8).collect();
+    assert_eq!(vals.len(), 58, "addr_make gives 32-byte addresses");
+    // 58 + 6 characters = 320 bits = 40 bytes, no padding bits
+    vals.extend_from_slice(&[7, 0, 19, 4, 31, 9]);
+    let mut expanded: Vec<u8> = hrp.bytes().map(|c| c >> 5).collect();
+    expanded.push(0);
+    expanded.extend(hrp.bytes().map(|c| c & 31));
+    expanded.extend_from_slice(&vals);
+    expanded.extend_from_slice(&[0; 6]);
+    let pm = bech32_polymod(&expanded) ^ 1;
+    let mut out = format!("{hrp}1");
+    for v in &vals {
+        out.push(BECH32_CHARSET[*v as usize] as char);
+    }
+    for i in 0..6 {
+        out.push(BECH32_CHARSET[((pm >> (5 * (5 - i))) & 31) as usize] as char);
+    }
+    api.addr_validate(&out).expect("the extended address is a valid address")
+}
